@@ -94,6 +94,7 @@ func NewEngine(prog *ssa.Program, cfg Config) *Engine {
 	registerStd(e)
 	registerBits(e)
 	e.opaque["internal/oserror"] = false
+	e.opaque["unicode/utf8"] = false
 	e.opaque["internal/bytealg"] = true
 	// package os: only the sentinel errors are needed (the rest of its
 	// initialisation needs the runtime); they alias io/fs's, as in the real init
